@@ -10,7 +10,8 @@ operations other tasks perform between the chunks).  Here:
 * `pass_split`, `pass_cursor_src`, `pass_frame` — what ONE fetch does, declaratively, on a buffer with
   ascending event numbers: the events of the buffer that are selected and lie behind the cursor
   (`pendingAt`) are split into the ones written (a prefix) and the ones still pending at the new cursor;
-* `FetchOk` / `LiveSpec` / `LiveEvents` — the specification of a whole live answer as a chain of such
+* `FetchOk` / `LiveSpec` / `LiveEvents` / `LiveMsgs` (message-wise: fetch `i` fills message `m0 + i`:
+  `evLoopEnv_msgs`, `LiveMsgsFull.msg_sound`) — the specification of a whole live answer as a chain of such
   fetches, written from the property text (per fetch, relative to the queue AT THAT FETCH), and its
   consequences: `LiveSpec.increasing` (no duplicates), `FetchOk.sound`, `FetchOk.dichotomy`,
   `LiveSpec.complete`, `LiveSpec.complete_from`, `LiveSpec.complete_new`, `LiveSpec.cursor_src`,
@@ -798,6 +799,114 @@ theorem envOf_mem : ∀ (later : List (List Ev)) (b : List Ev) (i : Nat), envOf 
     | zero => show b ∈ _; simp
     | succ i => show envOf b2 l i ∈ _; exact List.mem_cons_of_mem _ (ih b2 i)
 
+/-! ## which fetch fills which message -/
+
+/-- the event reports message by message: the messages sent, then the open one -/
+def evLists (s : ESt) : List (List EvPiece) := s.done.reverse.map (·.events) ++ [s.evs.reverse]
+
+theorem evLists_flatten (s : ESt) : (evLists s).flatten = s.flatEv := by
+  simp [evLists, ESt.flatEv, List.flatMap_def]
+
+/-- the data reports among event reports -/
+def dataOf (evs : List EvPiece) : List EvPiece :=
+  evs.filter fun p => match p with
+    | .data _ _ => true
+    | .status _ _ => false
+
+theorem dataOf_append (a b : List EvPiece) : dataOf (a ++ b) = dataOf a ++ dataOf b := by
+  simp [dataOf]
+
+theorem dataOf_evData (l : List Ev) : dataOf (l.map evData) = l.map evData := by
+  unfold dataOf
+  apply List.filter_eq_self.mpr
+  intro p hp
+  obtain ⟨e, _, rfl⟩ := List.mem_map.mp hp
+  rfl
+
+/-- what the fetches of a trace leave in the messages: the first fetch writes behind what the open
+message already holds (`pre`), every later fetch fills a message of its own -/
+def fetchMsgs : List EvPiece → List Fetch → List (List EvPiece)
+  | pre, [] => [pre]
+  | pre, [f] => [pre ++ f.emitted.map evData]
+  | pre, f :: g :: fs => (pre ++ f.emitted.map evData) :: fetchMsgs [] (g :: fs)
+
+theorem fetchMsgs_spec : ∀ (tr : List Fetch) (pre : List EvPiece), tr ≠ [] →
+    (fetchMsgs pre tr).length = tr.length ∧
+    ∀ i f, tr[i]? = some f →
+      (fetchMsgs pre tr)[i]? = some ((if i = 0 then pre else []) ++ f.emitted.map evData) := by
+  intro tr
+  induction tr with
+  | nil => intro pre h; exact absurd rfl h
+  | cons f fs ih =>
+    intro pre _
+    cases fs with
+    | nil =>
+      refine ⟨rfl, ?_⟩
+      intro i g hi
+      cases i with
+      | zero => simp only [List.getElem?_cons_zero, Option.some.injEq] at hi; subst hi; rfl
+      | succ i => simp at hi
+    | cons g fs =>
+      obtain ⟨l1, l2⟩ := ih [] (List.cons_ne_nil _ _)
+      refine ⟨by simp only [fetchMsgs, List.length_cons] at l1 ⊢; omega, ?_⟩
+      intro i x hi
+      cases i with
+      | zero => simp only [List.getElem?_cons_zero, Option.some.injEq] at hi; subst hi; rfl
+      | succ i =>
+        simp only [List.getElem?_cons_succ] at hi
+        have := l2 i x hi
+        simp only [fetchMsgs, List.getElem?_cons_succ]
+        rw [this]
+        cases i <;> simp
+
+theorem traceEnv_ne_nil (c : Cfg) (r : EvReq) (fuel : Nat) (env : Nat → List Ev) (s s2 : ESt)
+    (h : evLoopEnv c r fuel env s = .ok s2) : traceEnv c r fuel env s ≠ [] := by
+  cases fuel with
+  | zero => simp [evLoopEnv] at h
+  | succ fuel => simp [traceEnv]
+
+/-- **fetch `i` of the loop fills message `i` counted from the message that is open when the loop
+starts** -/
+theorem evLoopEnv_msgs (c : Cfg) (r : EvReq) : ∀ (fuel : Nat) (env : Nat → List Ev) (s s2 : ESt),
+    evLoopEnv c r fuel env s = .ok s2 →
+    evLists s2 = s.done.reverse.map (·.events) ++ fetchMsgs s.evs.reverse (traceEnv c r fuel env s) := by
+  intro fuel
+  induction fuel with
+  | zero => intro env s s2 h; simp [evLoopEnv] at h
+  | succ fuel ih =>
+    intro env s s2 h
+    rcases hp : pass r (env 0) s with ⟨s1, fin⟩
+    have h1 : (pass r (env 0) s).1 = s1 := by rw [hp]
+    have h2 : (pass r (env 0) s).2 = fin := by rw [hp]
+    obtain ⟨q1, _, _, _, _, q6, _, _, _⟩ := pass_frame r (env 0) s
+    rw [h1] at q1 q6
+    have hem : (fetchOf r (env 0) s).emitted = passLog r (env 0) s := rfl
+    simp only [evLoopEnv, hp] at h
+    cases fin with
+    | true =>
+      have ht : traceEnv c r (fuel + 1) env s = [fetchOf r (env 0) s] := by
+        simp only [traceEnv, h2, ↓reduceIte]
+      simp only [Except.ok.injEq] at h
+      subst h
+      rw [ht]
+      simp only [evLists, fetchMsgs, q1, q6, hem, List.reverse_append, List.reverse_reverse]
+    | false =>
+      have ht : traceEnv c r (fuel + 1) env s =
+          fetchOf r (env 0) s :: traceEnv c r fuel (fun i => env (i + 1)) (s1.flushEv c) := by
+        simp only [traceEnv, h1, h2, Bool.false_eq_true, ↓reduceIte]
+      rw [ht]
+      simp only at h
+      split at h
+      · cases h
+      · have g := ih (fun i => env (i + 1)) (s1.flushEv c) s2 h
+        have hne := traceEnv_ne_nil c r fuel (fun i => env (i + 1)) (s1.flushEv c) s2 h
+        rw [g]
+        obtain ⟨t, ts, hts⟩ := List.exists_cons_of_ne_nil hne
+        rw [hts]
+        simp only [fetchMsgs, ESt.flushEv, List.reverse_cons, List.map_append, List.map_cons, List.map_nil,
+          List.reverse_nil, q1, q6, hem, List.reverse_append, List.reverse_reverse, List.append_assoc,
+          List.cons_append, List.nil_append]
+
 /-! ## the event section and the whole answer over a live queue -/
 
 /-- the status reports of the concrete paths that do not validate -/
@@ -811,6 +920,76 @@ def LiveEvents (later : List (List Ev)) (re : Option EvReq) (evs : List EvPiece)
   | none => evs = []
   | some r => ∃ tr, LiveSpec r r.maxSeen tr ∧ (∀ i f, tr[i]? = some f → f.buf = envOf r.buf later i) ∧
       tr.length ≤ (emittedAll tr).length + 2 ∧ evs = statusPieces r ++ (emittedAll tr).map evData
+
+/-- **the event reports of a live answer, message by message** (`evss` = the event reports of each
+message, the still open last one included): as `LiveEvents`, and in addition fetch `i` of the trace is
+the one that fills message `m0 + i` — `m0` = the number of messages sent before the first fetch, none of
+which carries a data report.  So an event reported in message `m0 + i` was in the queue AT FETCH `i`. -/
+def LiveMsgsFull (later : List (List Ev)) (re : Option EvReq) (evss : List (List EvPiece)) : Prop :=
+  match re with
+  | none => ∀ evs ∈ evss, evs = []
+  | some r => ∃ tr m0, LiveSpec r r.maxSeen tr ∧ (∀ i f, tr[i]? = some f → f.buf = envOf r.buf later i) ∧
+      tr.length ≤ (emittedAll tr).length + 2 ∧
+      evss.flatten = statusPieces r ++ (emittedAll tr).map evData ∧
+      (∀ j evs, j < m0 → evss[j]? = some evs → dataOf evs = []) ∧
+      (∀ i f, tr[i]? = some f → ∃ evs, evss[m0 + i]? = some evs ∧ dataOf evs = f.emitted.map evData) ∧
+      evss.length = m0 + tr.length
+
+/-- … of the messages actually SENT: all of them — or all but the last one, which is not sent when
+nothing at all was reported and empty reports are suppressed (then the messages sent carry no report) -/
+def LiveMsgs (later : List (List Ev)) (re : Option EvReq) (evss : List (List EvPiece)) : Prop :=
+  LiveMsgsFull later re evss ∨ (LiveMsgsFull later re (evss ++ [[]]) ∧ ∀ evs ∈ evss, evs = [])
+
+theorem LiveMsgsFull.flat {later : List (List Ev)} {re : Option EvReq} {evss : List (List EvPiece)}
+    (h : LiveMsgsFull later re evss) : LiveEvents later re evss.flatten := by
+  cases re with
+  | none => exact List.flatten_eq_nil_iff.mpr h
+  | some r =>
+    obtain ⟨tr, _, h1, h2, h3, h4, _⟩ := h
+    exact ⟨tr, h1, h2, h3, h4⟩
+
+/-- the flat form: the concatenation of the event reports of the messages sent is `LiveEvents` -/
+theorem LiveMsgs.flat {later : List (List Ev)} {re : Option EvReq} {evss : List (List EvPiece)}
+    (h : LiveMsgs later re evss) : LiveEvents later re evss.flatten := by
+  rcases h with h | ⟨h, _⟩
+  · exact h.flat
+  · have := h.flat
+    simpa using this
+
+/-- **message-wise soundness**: an event reported in message `j` was in the queue — and selected — at
+the fetch that filled message `j` (fetch `j − m0`), not merely at some fetch of the answer -/
+theorem LiveMsgsFull.msg_sound {later : List (List Ev)} {r : EvReq} {evss : List (List EvPiece)}
+    (h : LiveMsgsFull later (some r) evss) :
+    ∃ m0, ∀ j evs n sz, evss[j]? = some evs → EvPiece.data n sz ∈ evs →
+      m0 ≤ j ∧ ∃ x ∈ envOf r.buf later (j - m0), x.num = n ∧ x.size = sz ∧ r.passes x = true := by
+  obtain ⟨tr, m0, hs, hb, _, _, hpre, htie, hlen⟩ := h
+  refine ⟨m0, ?_⟩
+  intro j evs n sz hj hm
+  have hd : EvPiece.data n sz ∈ dataOf evs := List.mem_filter.mpr ⟨hm, rfl⟩
+  have hge : m0 ≤ j := by
+    apply Nat.le_of_not_lt
+    intro hlt
+    rw [hpre j evs hlt hj] at hd
+    cases hd
+  refine ⟨hge, ?_⟩
+  have hjl : j < evss.length := by
+    apply Nat.lt_of_not_le
+    intro hle
+    rw [List.getElem?_eq_none hle] at hj
+    cases hj
+  have hi : j - m0 < tr.length := by omega
+  obtain ⟨evs2, h2, h3⟩ := htie (j - m0) tr[j - m0] (List.getElem?_eq_getElem hi)
+  rw [show m0 + (j - m0) = j by omega, hj] at h2
+  injection h2 with h2
+  subst h2
+  rw [h3] at hd
+  obtain ⟨x, hx, hxe⟩ := List.mem_map.mp hd
+  simp only [evData, EvPiece.data.injEq] at hxe
+  have hok := hs.all_ok _ (List.getElem_mem hi)
+  obtain ⟨hin, hw⟩ := hok.sound hx
+  rw [hb (j - m0) _ (List.getElem?_eq_getElem hi)] at hin
+  simp only [EvReq.wants, Bool.and_eq_true] at hw
+  exact ⟨x, hin, hxe.1, hxe.2, hw.2⟩
 
 theorem putEvStatuses_emptyL {c : Cfg} : ∀ (szs : List Nat) (k : Nat) (s s2 : ESt), EmptyL s →
     putEvStatuses c k szs s = .ok s2 → EmptyL s2 := by
@@ -831,15 +1010,16 @@ theorem putEvStatuses_emptyL {c : Cfg} : ∀ (szs : List Nat) (k : Nat) (s s2 : 
 
 theorem eventSectionLive_ok {c : Cfg} (hw : c.WF) {s s2 : ESt} {later : List (List Ev)} {re : Option EvReq}
     (h : AInv c s) (hemp : EmptyL s) (ho : OInv s)
-    (hasc : ∀ r, re = some r → ∀ b ∈ r.buf :: later, Asc b)
+    (hasc : ∀ r, re = some r → ∀ b ∈ r.buf :: later, Asc b) (hfe : s.flatEv = [])
     (hp : eventSectionLive c s later re = .ok s2) :
-    FInv c s2 ∧ EmptyL s2 ∧ OInv s2 ∧ s2.flatAt = s.flatAt ∧
-      ∃ evs, LiveEvents later re evs ∧ s2.flatEv = s.flatEv ++ evs := by
+    FInv c s2 ∧ EmptyL s2 ∧ OInv s2 ∧ s2.flatAt = s.flatAt ∧ LiveMsgsFull later re (evLists s2) := by
   cases re with
   | none =>
     simp only [eventSectionLive] at hp
     injection hp with hp; subst hp
-    exact ⟨⟨h.usedLe, by have := h.limLe; omega, h.doneOk⟩, hemp, ho, rfl, [], rfl, by simp⟩
+    refine ⟨⟨h.usedLe, by have := h.limLe; omega, h.doneOk⟩, hemp, ho, rfl, ?_⟩
+    have : (evLists s).flatten = [] := by rw [evLists_flatten, hfe]
+    exact List.flatten_eq_nil_iff.mp this
   | some r =>
     simp only [eventSectionLive] at hp
     cases hx : expand c s.lim c.evOpen with
@@ -889,11 +1069,235 @@ theorem eventSectionLive_ok {c : Cfg} (hw : c.WF) {s s2 : ESt} {later : List (Li
                   rw [a3, a2]; rfl
                 · have hc : s3.cursor = r.maxSeen := c2
                   rw [hc] at sp1
-                  refine ⟨_, ⟨_, sp1, sp2, ?_, rfl⟩, ?_⟩
-                  · split at hlen <;> omega
-                  · show s4.flatEv = s.flatEv ++ _
-                    rw [f3, f2]
-                    simp [statusPieces, ESt.flatEv]
+                  have hmsg := evLoopEnv_msgs c r _ _ _ _ hlo
+                  have hne := traceEnv_ne_nil c r _ _ _ _ hlo
+                  obtain ⟨fl, fg⟩ := fetchMsgs_spec _ s3.evs.reverse hne
+                  -- before the loop only status reports were written
+                  have hst3 : s3.flatEv = statusPieces r := by
+                    rw [f2]
+                    show s.flatEv ++ _ = _
+                    rw [hfe]; rfl
+                  have hnod : ∀ evs ∈ evLists s3, dataOf evs = [] := by
+                    intro evs hevs
+                    unfold dataOf
+                    apply List.filter_eq_nil_iff.mpr
+                    intro p hp
+                    have hin : p ∈ (evLists s3).flatten := List.mem_flatten.mpr ⟨evs, hevs, hp⟩
+                    rw [evLists_flatten, hst3] at hin
+                    simp only [statusPieces, List.mem_map] at hin
+                    obtain ⟨_, _, rfl⟩ := hin
+                    simp
+                  show LiveMsgsFull later (some r) (evLists s4)
+                  refine ⟨_, s3.done.length, sp1, sp2, by split at hlen <;> omega, ?_, ?_, ?_, ?_⟩
+                  · rw [evLists_flatten, f3, hst3]
+                  · intro j evs hj hget
+                    rw [hmsg, List.getElem?_append_left (by simpa using hj)] at hget
+                    apply hnod
+                    simp only [evLists, List.mem_append]
+                    exact .inl (List.mem_of_getElem? hget)
+                  · intro i f hi
+                    refine ⟨(if i = 0 then s3.evs.reverse else []) ++ f.emitted.map evData, ?_, ?_⟩
+                    · rw [hmsg, List.getElem?_append_right (by simp)]
+                      simp only [List.length_map, List.length_reverse, Nat.add_sub_cancel_left]
+                      exact fg i f hi
+                    · rw [dataOf_append, dataOf_evData]
+                      cases i with
+                      | zero =>
+                        simp only [↓reduceIte]
+                        rw [hnod s3.evs.reverse (by simp [evLists]), List.nil_append]
+                      | succ i => simp [dataOf]
+                  · rw [hmsg]
+                    simp only [List.length_append, List.length_map, List.length_reverse, fl]
+              · cases hp
+      · cases hp
+
+/-! ## no message without a last one when every event fits a message (N5) -/
+
+/-- as long as nothing was reported, the open message has room for every event report that fits an
+empty event message -/
+def RoomInv (c : Cfg) (s : ESt) : Prop := s.empty = true → s.used + c.limit ≤ s.lim + c.hdr + c.evOpen
+
+/-- every selected event of the buffer fits an empty event message -/
+def BufFits (c : Cfg) (r : EvReq) (b : List Ev) : Prop :=
+  ∀ e ∈ b, r.passes e = true → c.hdr + c.evOpen + e.size ≤ c.limit
+
+/-- a fetch that stops for want of space has reported something before — now or earlier -/
+theorem pass_stuck_nonempty {c : Cfg} (r : EvReq) (b : List Ev) (s : ESt) (hasc : Asc b)
+    (hr : RoomInv c s) (hfit : BufFits c r b) (hf : (pass r b s).2 = false) :
+    (pass r b s).1.empty = false := by
+  cases hemp : (pass r b s).1.empty with
+  | false => rfl
+  | true =>
+    exfalso
+    obtain ⟨_, _, _, q4, _, _, q7, _, q9⟩ := pass_frame r b s
+    rw [hemp] at q9
+    have q9' := q9.symm
+    rw [Bool.and_eq_true, List.isEmpty_iff] at q9'
+    obtain ⟨hse, hlog⟩ := q9'
+    rw [hlog] at q7
+    simp only [List.map_nil, sumEv, List.sum_nil, Nat.add_zero] at q7
+    obtain ⟨_, _, _, _, p5⟩ := pass_split r b s hasc
+    obtain ⟨e, rest, he, hlt⟩ := p5 hf
+    have hmem : e ∈ pendingAt r (pass r b s).1.cursor b := by rw [he]; simp
+    obtain ⟨heb, hw⟩ := List.mem_filter.mp hmem
+    simp only [EvReq.wants, Bool.and_eq_true] at hw
+    have h1 := hfit e heb hw.2
+    have h2 := hr hse
+    rw [q4, q7] at hlt
+    omega
+
+theorem pass_empty_false (r : EvReq) (b : List Ev) (s : ESt) (h : s.empty = false) :
+    (pass r b s).1.empty = false := by
+  obtain ⟨_, _, _, _, _, _, _, _, q9⟩ := pass_frame r b s
+  rw [q9, h]; rfl
+
+theorem evLoopEnv_empty_false (c : Cfg) (r : EvReq) : ∀ (fuel : Nat) (env : Nat → List Ev) (s s2 : ESt),
+    s.empty = false → evLoopEnv c r fuel env s = .ok s2 → s2.empty = false := by
+  intro fuel
+  induction fuel with
+  | zero => intro env s s2 _ h; simp [evLoopEnv] at h
+  | succ fuel ih =>
+    intro env s s2 he h
+    rcases hp : pass r (env 0) s with ⟨s1, fin⟩
+    have h1 : (pass r (env 0) s).1 = s1 := by rw [hp]
+    have he1 : s1.empty = false := by rw [← h1]; exact pass_empty_false r _ s he
+    simp only [evLoopEnv, hp] at h
+    cases fin with
+    | true => simp only [Except.ok.injEq] at h; rw [← h]; exact he1
+    | false =>
+      simp only at h
+      split at h
+      · cases h
+      · exact ih _ (s1.flushEv c) s2 he1 h
+
+/-- **no chunk is sent while nothing was reported** when every selected event of every buffer fits an
+empty event message and the open message has the room of one -/
+theorem evLoopEnv_noflush (c : Cfg) (r : EvReq) : ∀ (fuel : Nat) (env : Nat → List Ev) (s s2 : ESt),
+    (∀ i, Asc (env i)) → (∀ i, BufFits c r (env i)) → RoomInv c s →
+    evLoopEnv c r fuel env s = .ok s2 → s2.empty = true → s2.done = s.done := by
+  intro fuel
+  induction fuel with
+  | zero => intro env s s2 _ _ _ h; simp [evLoopEnv] at h
+  | succ fuel _ =>
+    intro env s s2 hasc hfit hr h he2
+    rcases hp : pass r (env 0) s with ⟨s1, fin⟩
+    have h1 : (pass r (env 0) s).1 = s1 := by rw [hp]
+    have h2 : (pass r (env 0) s).2 = fin := by rw [hp]
+    obtain ⟨q1, _⟩ := pass_frame r (env 0) s
+    rw [h1] at q1
+    simp only [evLoopEnv, hp] at h
+    cases fin with
+    | true => simp only [Except.ok.injEq] at h; rw [← h]; exact q1
+    | false =>
+      exfalso
+      have he1 : s1.empty = false := by
+        rw [← h1]; exact pass_stuck_nonempty r _ s (hasc 0) hr (hfit 0) h2
+      simp only at h
+      split at h
+      · cases h
+      · have := evLoopEnv_empty_false c r _ _ (s1.flushEv c) s2 he1 h
+        rw [this] at he2; cases he2
+
+theorem putEvStatuses_room {c : Cfg} : ∀ (szs : List Nat) (k : Nat) (s s2 : ESt), RoomInv c s →
+    putEvStatuses c k szs s = .ok s2 → RoomInv c s2 := by
+  intro szs
+  induction szs with
+  | nil => intro k s s2 h hp; simp [putEvStatuses] at hp; subst hp; exact h
+  | cons sz szs ih =>
+    intro k s s2 _ hp
+    simp only [putEvStatuses] at hp
+    cases h1 : putEvStatus c s k sz with
+    | error e => rw [h1] at hp; cases hp
+    | ok s1 =>
+      rw [h1] at hp
+      refine ih (k + 1) s1 s2 ?_ hp
+      intro he
+      rw [putEvStatus_empty h1] at he
+      cases he
+
+/-- what `report_attributes` leaves when nothing was yielded: with the real encoding (the attribute
+array start is not longer than the event array start) the room of an empty event message -/
+theorem attrSection_room {c : Cfg} (hw : c.WF) (hle : c.arrOpen ≤ c.evOpen) {ra : Option (List AttrReq)} {s1 : ESt}
+    (h : attrSection c ra = .ok s1) :
+    s1.empty = true → s1.used + c.evOpen + c.limit ≤ s1.lim + c.evOpen + c.hdr + c.evOpen := by
+  intro he
+  cases ra with
+  | none =>
+    simp only [attrSection] at h
+    injection h with h; subst h
+    simp only; omega
+  | some as =>
+    obtain ⟨s, hp, _, _, _, _, hu, hl, _, hem⟩ := attrSection_some hw h
+    rw [hem, List.isEmpty_iff] at he
+    have hs : s = St.init c := by
+      have : selected as = [] := by simp [selected, he]
+      rw [this] at hp
+      simp only [putItems] at hp
+      injection hp with hp; exact hp.symm
+    rw [hu, hl, hs]
+    simp only [St.init]; omega
+
+/-- the event section sends no chunk while nothing was reported -/
+theorem eventSectionLive_noflush {c : Cfg} (hw : c.WF) (hle : c.arrOpen ≤ c.evOpen) {ra : Option (List AttrReq)}
+    {s s2 : ESt} {later : List (List Ev)} {re : Option EvReq} (hs : attrSection c ra = .ok s)
+    (hasc : ∀ r, re = some r → ∀ b ∈ r.buf :: later, Asc b)
+    (hfit : ∀ r, re = some r → ∀ b ∈ r.buf :: later, BufFits c r b)
+    (hp : eventSectionLive c s later re = .ok s2) : s2.empty = true → s2.done = [] := by
+  intro he2
+  obtain ⟨_, e1, _, _⟩ := attrSection_ok hw hs
+  cases re with
+  | none =>
+    simp only [eventSectionLive] at hp
+    injection hp with hp; subst hp
+    exact (e1 he2).1
+  | some r =>
+    simp only [eventSectionLive] at hp
+    cases hx : expand c s.lim c.evOpen with
+    | error e => rw [hx] at hp; cases hp
+    | ok lim =>
+      rw [hx] at hp
+      simp only at hp
+      obtain rfl := expand_ok hx
+      split at hp
+      · have r1 : RoomInv c { s with lim := s.lim + c.evOpen, used := s.used + c.evOpen, base := s.used + c.evOpen, cursor := r.maxSeen } := by
+          intro he
+          have := attrSection_room hw hle hs he
+          simp only; omega
+        have e1' : EmptyOk { s with lim := s.lim + c.evOpen, used := s.used + c.evOpen, base := s.used + c.evOpen, cursor := r.maxSeen } := e1
+        cases hst : putEvStatuses c 0 r.statuses { s with lim := s.lim + c.evOpen, used := s.used + c.evOpen, base := s.used + c.evOpen, cursor := r.maxSeen } with
+        | error e => rw [hst] at hp; cases hp
+        | ok s3 =>
+          rw [hst] at hp
+          simp only at hp
+          have r3 := putEvStatuses_room _ _ _ _ r1 hst
+          have e3 := putEvStatuses_empty _ _ _ _ e1' hst
+          rw [evLoopLive_eq_env] at hp
+          cases hlo : evLoopEnv c r (liveFuel r.buf later) (envOf r.buf later) s3 with
+          | error e => rw [hlo] at hp; cases hp
+          | ok s4 =>
+            rw [hlo] at hp
+            simp only at hp
+            cases hx2 : expand c s4.lim c.close with
+            | error e => rw [hx2] at hp; cases hp
+            | ok lim2 =>
+              rw [hx2] at hp
+              simp only at hp
+              split at hp
+              · injection hp with hp; subst hp
+                have he4 : s4.empty = true := he2
+                have hd := evLoopEnv_noflush c r _ _ s3 s4
+                  (fun i => hasc r rfl _ (envOf_mem later r.buf i))
+                  (fun i => hfit r rfl _ (envOf_mem later r.buf i)) r3 hlo he4
+                show s4.done = []
+                rw [hd]
+                -- nothing was reported before the loop either
+                have he3 : s3.empty = true := by
+                  cases h3 : s3.empty with
+                  | true => rfl
+                  | false =>
+                    have := evLoopEnv_empty_false c r _ _ s3 s4 h3 hlo
+                    rw [this] at he4; cases he4
+                exact (e3 he3).1
               · cases hp
       · cases hp
 
@@ -913,11 +1317,12 @@ open Chunk
 /-- what a well-behaved answer `cs` looks like when the event queue changes between the chunks
 (`later` = the queue at the second, third, … fetch) -/
 structure GoodLive (c : Cfg) (r : Req) (later : List (List Ev)) (cs : List ChunkOut) : Prop where
-  /-- the attribute side is what `report_attributes` wrote — the part of the answer that does not
-  depend on the queue (described by `attrSection_ok`) -/
-  attrs : ∃ s1, attrSection c r.attrs = .ok s1 ∧ cs.flatMap (·.pieces) = s1.flatAt
-  /-- the event reports meet the live specification -/
-  events : LiveEvents later r.events (cs.flatMap (·.events))
+  /-- the attribute side as over a frozen queue (`Good.attrs`): every selected attribute exactly once, in
+  order; an error status exactly for the report that fits no message -/
+  attrs : ∃ outs, AllJustified c (selOf r.attrs) outs ∧ cs.flatMap (·.pieces) = allPieces (selOf r.attrs) outs
+  /-- the event reports meet the live specification, message by message: the events of the message
+  that fetch `i` fills are what that fetch — reading the queue as it is at that moment — reports -/
+  events : LiveMsgs later r.events (cs.map (·.events))
   /-- fits the transport's maximum size -/
   bounded : ∀ ch ∈ cs, ch.size ≤ c.cap
   /-- no attribute report follows an event report -/
@@ -946,19 +1351,18 @@ theorem respondLive_good {c : Cfg} {r : Req} {later : List (List Ev)} {cs : List
     | ok s2 =>
       rw [h2] at h
       simp only at h
-      obtain ⟨a1, e1, f1, _⟩ := attrSection_ok hw h1
-      obtain ⟨a2, e2, o2, fa2, evs, hev, fe2⟩ :=
-        eventSectionLive_ok hw a1 e1.toL (attrSection_ordered hw h1) hasc h2
-      rw [f1, List.nil_append] at fe2
+      obtain ⟨a1, e1, f1, outs, hj, hfa⟩ := attrSection_ok hw h1
+      obtain ⟨a2, e2, o2, fa2, hev⟩ :=
+        eventSectionLive_ok hw a1 e1.toL (attrSection_ordered hw h1) hasc f1 h2
       split at h
       · rw [sendDone_ok hw a2] at h
         injection h with h
         subst h
-        refine ⟨⟨s1, h1, ?_⟩, ?_, ?_, ?_, ?_⟩
-        · rw [← fa2]; simp [ESt.flatAt, List.flatMap_append]
-        · have : (({ pieces := s2.attrs.reverse, events := s2.evs.reverse, size := s2.used + c.trailerDone, more := false } :: s2.done).reverse).flatMap (·.events) = s2.flatEv := by
-            simp [ESt.flatEv, List.flatMap_append]
-          rw [this, fe2]; exact hev
+        refine ⟨⟨outs, hj, ?_⟩, ?_, ?_, ?_, ?_⟩
+        · rw [← hfa, ← fa2]; simp [ESt.flatAt, List.flatMap_append]
+        · have : (({ pieces := s2.attrs.reverse, events := s2.evs.reverse, size := s2.used + c.trailerDone, more := false } :: s2.done).reverse).map (·.events) = evLists s2 := by
+            simp [evLists]
+          rw [this]; exact .inl hev
         · intro ch hch
           simp only [List.mem_reverse, List.mem_cons] at hch
           rcases hch with rfl | hch
@@ -981,13 +1385,61 @@ theorem respondLive_good {c : Cfg} {r : Req} {later : List (List Ev)} {cs : List
         have he0 : s2.done.reverse.flatMap (·.events) = [] :=
           flatMap_events_nil _ (fun ch hch => (hd ch (List.mem_reverse.mp hch)).2)
         have hat : s2.flatAt = [] := by simp [ESt.flatAt, hp0, ha]
-        have hev0 : s2.flatEv = [] := by simp [ESt.flatEv, he0, he]
-        refine ⟨⟨s1, h1, by rw [hp0, ← fa2, hat]⟩, ?_, ?_, ?_, ?_⟩
-        · rw [he0, ← hev0, fe2]; exact hev
+        refine ⟨⟨outs, hj, by rw [hp0, ← hfa, ← fa2, hat]⟩, ?_, ?_, ?_, ?_⟩
+        · right
+          have : evLists s2 = s2.done.reverse.map (·.events) ++ [[]] := by simp [evLists, he]
+          rw [← this]
+          refine ⟨hev, ?_⟩
+          intro evs hevs
+          obtain ⟨ch, hch, rfl⟩ := List.mem_map.mp hevs
+          exact (hd ch (List.mem_reverse.mp hch)).2
         · intro ch hch
           exact (a2.doneOk ch (List.mem_reverse.mp hch)).2
         · exact ordered_of_no_events _ (fun ch hch => (hd ch (List.mem_reverse.mp hch)).2)
         · exact .inl ⟨hsup.1, hp0, he0, fun ch hch => (a2.doneOk ch (List.mem_reverse.mp hch)).1⟩
+
+/-- **only the last message ends the interaction, also over a live queue** — when the attribute array
+start is not longer than the event array start (the real encoding) and every selected event of every
+buffer a fetch may see fits an empty event message: nothing is sent at all (an empty report that is
+suppressed), or the last message and only the last has MoreChunkedMessages clear.  The message without a
+last one of `orphan_chunk` needs an event that fits no message (or another encoding). -/
+theorem respondLive_lastEnds {c : Cfg} {r : Req} {later : List (List Ev)} {cs : List ChunkOut} (hw : c.WF)
+    (hle : c.arrOpen ≤ c.evOpen)
+    (hasc : ∀ e, r.events = some e → ∀ b ∈ e.buf :: later, Asc b)
+    (hfit : ∀ e, r.events = some e → ∀ b ∈ e.buf :: later, BufFits c e b)
+    (h : respondLive c r later = .ok cs) :
+    (cs = [] ∧ r.sendIfEmpty = false) ∨
+      ∃ front last, cs = front ++ [last] ∧ last.more = false ∧ ∀ ch ∈ front, ch.more = true := by
+  rcases (respondLive_good hw hasc h).lastEnds with ⟨hs, _, _, hm⟩ | hr
+  · left
+    refine ⟨?_, hs⟩
+    unfold respondLive at h
+    cases h1 : attrSection c r.attrs with
+    | error e => rw [h1] at h; cases h
+    | ok s1 =>
+      rw [h1] at h
+      simp only at h
+      cases h2 : eventSectionLive c s1 later r.events with
+      | error e => rw [h2] at h; cases h
+      | ok s2 =>
+        rw [h2] at h
+        simp only at h
+        split at h
+        · -- the final message was sent: it has MoreChunks clear, against `∀ ch ∈ cs, ch.more = true`
+          obtain ⟨a1, e1, f1, _⟩ := attrSection_ok hw h1
+          obtain ⟨a2, _⟩ := eventSectionLive_ok hw a1 e1.toL (attrSection_ordered hw h1) hasc f1 h2
+          rw [sendDone_ok hw a2] at h
+          injection h with h
+          have := hm { pieces := s2.attrs.reverse, events := s2.evs.reverse, size := s2.used + c.trailerDone, more := false }
+            (by rw [← h]; simp)
+          cases this
+        · rename_i hsup
+          injection h with h
+          simp only [Bool.or_eq_true, Bool.not_eq_eq_eq_not, Bool.not_true, not_or, Bool.not_eq_true,
+            Bool.not_eq_false] at hsup
+          rw [← h, eventSectionLive_noflush hw hle h1 hasc hfit h2 hsup.2]
+          rfl
+  · exact .inr hr
 
 end C14
 
